@@ -199,12 +199,14 @@ func (b *Builder) epsilonClosureOnePass(root nfa.StateID) ([]closureEntry, bool,
 			b.matchMask = slots
 
 		case nfa.StateSplit:
-			// Follow both epsilon paths
+			// Follow both epsilon paths. Push right first so that left (the
+			// preferred branch) is popped first and the closure comes out in
+			// priority order; buildTransitions relies on that order.
 			left, right := state.Split()
-			if err := b.stackPush(left, slots); err != nil {
+			if err := b.stackPush(right, slots); err != nil {
 				return nil, false, err
 			}
-			if err := b.stackPush(right, slots); err != nil {
+			if err := b.stackPush(left, slots); err != nil {
 				return nil, false, err
 			}
 
@@ -282,13 +284,27 @@ func (b *Builder) buildTransitions(tableIdx int, closure []closureEntry) error {
 	// Key: byte class, Value: target NFA state + source slots
 	byteTransitions := make(map[byte]transInfo)
 
+	// matched is set once the match state has been passed in the (priority
+	// ordered) closure. A byte transition after it has LOWER priority than the
+	// match: leftmost-first must stop here instead of consuming more input
+	// (non-greedy tail such as (a)+? or x(b)*?, empty alternative first such
+	// as (|a)). Search has no "match wins" handling - it always runs on and
+	// reports the longest match - so such patterns are left to the PikeVM.
+	matched := false
+
 	for _, entry := range closure {
 		state := b.nfa.State(entry.nfaID)
 		if state == nil {
 			continue
 		}
+		if matched && (state.Kind() == nfa.StateByteRange || state.Kind() == nfa.StateSparse) {
+			return ErrNotOnePass
+		}
 
 		switch state.Kind() {
+		case nfa.StateMatch:
+			matched = true
+
 		case nfa.StateByteRange:
 			lo, hi, next := state.ByteRange()
 			// Use int to avoid overflow when hi=255 (byte wraps to 0)
